@@ -381,6 +381,17 @@ func Issue(t Template, r *rand.Rand) (*Issued, error) {
 	if !t.has("bc") {
 		c.BasicConstraintsValid = false
 	}
+	// signature algorithm variety (the issuer key type follows the template's key type)
+	switch sk := signer.(type) {
+	case *rsa.PrivateKey:
+		algs := []x509.SignatureAlgorithm{x509.SHA256WithRSA, x509.SHA384WithRSA, x509.SHA512WithRSA, x509.SHA256WithRSAPSS, x509.SHA384WithRSAPSS}
+		if sk.N.BitLen() >= 2048 {
+			algs = append(algs, x509.SHA512WithRSAPSS)
+		}
+		c.SignatureAlgorithm = algs[r.Intn(len(algs))]
+	case *ecdsa.PrivateKey:
+		c.SignatureAlgorithm = []x509.SignatureAlgorithm{x509.ECDSAWithSHA256, x509.ECDSAWithSHA384, x509.ECDSAWithSHA512}[r.Intn(3)]
+	}
 	// Go >= 1.22 prefers Policies over PolicyIdentifiers only under GODEBUG x509usepolicies=1; default keeps PolicyIdentifiers.
 	der, err := x509.CreateCertificate(crand.Reader, c, parent, key.Public(), signer)
 	if err != nil {
